@@ -38,6 +38,22 @@ CHECKS = {
    technique='three exhaustive layers: all insert/delete words on the lock map vs. a multiset; explicit-state BFS over trie histories with up to 3 iterators; explicit-state BFS over InstanceState host-operation histories incl. interrupts vs. a handle/generation model',
    text='(1) every word up to depth 6/8 of insert/delete on the reference-counted prefix map, all queries after every step; (2) the trie history search with a lock-centred alphabet (iterators on equal, nested and disjoint prefixes; modifications at, under, above and beside them; checkpoint/rollback/commit): modifications under a live prefix are refused and leave the state unchanged, iterators yield exactly their snapshot in order, delete_iter releases exactly one lock; (3) the contract-visible InstanceState operations (lookup/create/delete/delete_prefix/iterate/next/delete/key/read/write/resize, foreign handles) interleaved with interrupts (no change, nested call rolled back, nested call committed) against a model of handles, incarnations and generation counters with the documented return encodings.',
    note='Trusted: hooks H1/H4 (forwarding only), the models in /verif/engines/mc-state. Contract-level end-to-end (through Wasm) is C14.'),
+ 'C11': dict(engine='mc-crypto', ref='DESIGN.md §5 C11',
+   technique='exhaustive grid of (bit width, batch size, boundary value, position) x transcripts, all ordered pairs/triples of a boundary alphabet for derived statements, all (set size, element/neighbour) combinations, complete context-perturbation list and single-bit-flip neighbourhood of serialised proofs; oracle = truth of the statement',
+   text='Range proofs for n in {1,2,3,4,8,32,64} (thorough: 13 widths incl. non powers of two) x m in {1,2(,3,4)} on values 0, 1, 2^(n-1), 2^n-2, 2^n-1 (must prove and verify) and 2^n, 2^n+1, 2^64-1 (whatever the honest prover outputs must not verify) under the legacy and the V1 transcript; generator vectors one short / one long; a<=b on all ordered pairs and v in [a,b) on all triples of a boundary alphabet; set membership / non-membership for set sizes 1..5 (..16) with every element, both neighbours, below min and above max; every context perturbation (commitments, generators, keys, n, domain, version, transcript protocol) and every single-bit flip of the serialised proof must be rejected.',
+   note='Soundness against a computing adversary is not decidable by enumeration; only the honest prover on false witnesses and the listed alterations are covered. Fixture randomness from VERIF_SEED.'),
+ 'C12': dict(engine='mc-crypto', ref='DESIGN.md §5 C12',
+   technique='exhaustive enumeration of boundary amounts, all pairs (aggregation), all (balance, amount, index) triples (encrypted and secret-to-public transfers), complete component-perturbation list; oracle = integer arithmetic on plaintexts',
+   text='Encrypt/decrypt for every chunk-boundary amount under two keys; aggregation of all pairs whose sum fits 64 bits decrypts to the sum (including low-chunk sums that carry); for every (balance, amount) pair from the alphabet and two indices: amount <= balance gives transfer data that verifies and whose remaining + transferred parts decrypt to the balance, amount > balance is not producible; same for secret-to-public; every replacement / negation / swap of every ciphertext component, index +-1, swapped or foreign proofs, swapped keys, altered balance ciphertext and another global context must fail verification.',
+   note='One open known finding (F8: the index is not bound by verify_transfer_data) is listed in known_findings.jsonl. Two seeded key pairs; decryption table 2^16.'),
+ 'C19': dict(engine='mc-crypto', ref='DESIGN.md §5 C19',
+   technique='exhaustive enumeration of all (key, message, signature) tuples, all multisets of <=3/4 (key, message) pairs verified against every multiset of the same size under the three aggregate verifiers, all proof-of-possession cross combinations, complete single-bit-flip neighbourhoods, all PS message vectors over a boundary scalar alphabet',
+   text='BLS: 3 keys x 4 messages, every (signed, verified) combination accepts iff equal; aggregates of every multiset of <=3 (thorough 4) pairs from a 3x3 grid verified against every multiset of the same size with verify_aggregate_sig, _hybrid and _trusted_keys (accept iff equal multiset and the documented preconditions; variants agree where both apply); proofs of possession for all key/context cross combinations; bit flips of signature and key. VRF: all (key, message, proof) triples, determinism and distinctness of outputs, every bit flip of proof (640 bits), key and message. PS: known-message signing and blind issuance + unblinding for every vector of length <=2 (3) over {0,1,r-1,random}, verified against every other vector (valid iff equal up to zero padding), other key, altered components.',
+   note='Unforgeability in general is a computational assumption; three seeded keys per scheme.'),
+ 'C20': dict(engine='mc-crypto', ref='DESIGN.md §5 C20',
+   technique='exhaustive enumeration of boundary-scalar x point tuples per window size vs. naive sum; complete single-bit-flip neighbourhoods of encodings + scanned wrong-subgroup points; all (n, threshold, subset) sharing configurations; derivation grid vs. a SLIP-10 implementation written from the specification',
+   text='Multi-exponentiation on G1, G2 and the ed25519 instance: all 1- and 2-tuples over ~40 boundary scalars (0, 1, r-1, 2^k-1/2^k/2^k+1 at window and limb boundaries, all-ones patterns) x points {g, 2g, -g, 0, h} for window sizes 1..8 and the default algorithm, reduced 3-tuples; encodings: every bit flip of every fixture point and of r-1, truncations, r / r+1 / 2^256-1, the first 16/64 on-curve points outside the subgroup: decode accepts only canonical group elements and re-encodes identically; hash_to_group deterministic, in the group, collision-free on 64 messages; secret sharing for n<=4 (6), every threshold and EVERY subset (>= t reconstructs in the field and in the exponent in any order, t-1 does not); key derivation grid (3 seeds x 2 networks x 3x3x3 indices) is deterministic, public matches secret, equals SLIP-10 on the documented path, all keys distinct.',
+   note='Points other than the five fixtures and scalars outside the alphabet are not covered.'),
 }
 
 manifest = {
@@ -53,6 +69,8 @@ manifest = {
  "engines": [
    {"name": "mc-wasm", "path": "/verif/engines/mc-wasm", "serves_properties": ["C01", "C02", "C09", "C13"],
     "kind_free_text": "bounded exhaustive Wasm program enumeration on the real concordium-wasm engine vs. reference validator/interpreter"},
+   {"name": "mc-crypto", "path": "/verif/engines/mc-crypto", "serves_properties": ["C11", "C12", "C19", "C20"],
+    "kind_free_text": "exhaustive configuration / boundary-input / single-component-perturbation enumeration on the real cryptographic code vs. truth predicates"},
    {"name": "mc-state", "path": "/verif/engines/mc-state", "serves_properties": ["C03", "C04", "C15"],
     "kind_free_text": "explicit-state search over operation histories of the real contract-state trie vs. ordered-map model and independent hash"},
  ],
